@@ -281,6 +281,68 @@ def retire_hooks_silent(P, R, rule='C01.WMC.4'):
     R.floor(rule, 2, 'module slots called by the retiring handlers')
 
 
+def announcement_retires_holder(P, R, rule='C01.MPT.5'):
+    """The server re-uses an id only once its previous holder is gone.  Whatever the announcement handler makes of the
+    new line - accept it, or refuse it because it is short or unreadable - a request still stored under that id is the
+    previous holder's: left in the table it receives the new client's later lines, and a verdict built from it (its
+    address, its port, its account) is written for a client that was never checked.  Every entry->exit path of the
+    handler therefore settles the holder: inserts into the table (the insert replaces and disposes of the old node),
+    or looks the id up and retires what it finds."""
+    rd, disp = core.reader_dispatch(P)
+    hs = [h for s, h, vs in disp if ord('C') in (vs or ())]
+    if not hs:
+        raise AnalysisBroken('the dispatch has no handler for the announcement (C)')
+    h = hs[0]
+    rp = core.retire_pred(P)
+    retiring = {f.key for f in P.unit_fns(h.unit) if any(rp(s) for s in f.sites())}
+
+    def lookup_var(s):
+        ev = s.ev
+        val = ev.get('rhs') if ev['k'] == 'store' else ev.get('init') if ev['k'] == 'decl' else None
+        if isinstance(val, dict) and val.get('k') == 'callref' and val.get('callee') == 'set_find':
+            tgt = ev.get('lhs') if ev['k'] == 'store' else {'k': 'var', 'name': ev.get('name')}
+            if is_var(tgt) or ev['k'] == 'decl':
+                return tgt.get('name')
+        return None
+
+    def on_event(st, s):
+        ev = s.ev
+        if st == 'S':
+            return st
+        if ev['k'] == 'call':
+            if ev.get('callee') == 'set_insert' and ev['args'] and is_var(ev['args'][0], uar.TABLE):
+                return 'S'
+            if rp(s):
+                return 'S'
+            if any(t.key in retiring for t in P.callees(s, False)) and isinstance(st, tuple) and any(is_var(a, st[1]) for a in ev['args']):
+                return 'S'
+            return st
+        v = lookup_var(s)
+        if v:
+            return ('L', v)
+        return st
+
+    def on_edge(st, e):
+        if isinstance(st, tuple):
+            r = e.rel()
+            if r is not None and const_of(r[2]) == 0:
+                l = r[0]
+                if isinstance(l, dict) and l.get('k') == 'assign':
+                    l = l.get('lhs')
+                if is_var(l, st[1]) and r[1] == '==':
+                    return 'S'       # nothing is stored under the id
+        return st
+    _, at_exit, _, _ = h.forward('U', on_event, on_edge)
+    looks = [s for s in h.calls('set_find') if s.ev['args'] and is_var(s.ev['args'][0], uar.TABLE)]
+    ins = [s for s in h.calls('set_insert') if s.ev['args'] and is_var(s.ev['args'][0], uar.TABLE)]
+    if not ins:
+        raise AnalysisBroken('%s never inserts into the request table' % h.name)
+    bad = sorted(str(x) for x in at_exit if x != 'S')
+    R.ob(rule, not bad, h, 'every path through %s settles the previous holder of the id: inserts (replacing it) or looks it up and retires it (%d insert(s), %d lookup(s)%s)' % (
+        h.name, len(ins), len(looks), ('; a path returns with the holder %s' % ('never looked for' if 'U' in bad else 'found and left in place')) if bad else ''),
+        key='holder-settled:%s' % h.name, nontrivial=True)
+
+
 def retire_name(P, f):
     """f is one of the two handlers that retire a request on the server's word (D and T arms of the dispatch)."""
     rd, disp = core.reader_dispatch(P)
@@ -292,6 +354,7 @@ def retire_name(P, f):
 
 def run(P, R, tier):
     retire_hooks_silent(P, R)
+    announcement_retires_holder(P, R)
     V, softfns = fmt_rules(P, R)
     verdict_discipline(P, R, V)
     who_may(P, R, V, softfns)
